@@ -13,7 +13,7 @@ from .gaussians import LAYOUTS, BlockL, DenseL, IsoL, cov, law, _names, _scaling
 
 
 def _fam(tier, L):
-    fam = [(1, 1), (2, 1), (2, 2)]
+    fam = [(1, 1), (2, 1), (2, 2), (3, 2)]
     if tier == "thorough":
         fam += [(3, 1), (3, 2), (4, 1)]
     return fam
